@@ -55,6 +55,15 @@ Theorem C02_result_refuted :
 Proof. exact SchemaProofs.C02_result_refuted. Qed.
 Print Assumptions C02_result_refuted.
 
+(* ... what remains true of the result side: for constraints whose token-level enforcement is complete (Any, None,
+   unbounded Int/Number, ByteString without maxLength/minLength, unbounded ListOf/SetOf of those) the value given to
+   the callback satisfies the result constraint, for EVERY well-formed wire tree w (forged references included).
+   Missing w.r.t. the full statement: every bounded constraint, tuples, dicts, text, bool, ChoiceOf (see refuted). *)
+Theorem C02_result_partial : forall c w v,
+  complete c = true -> wwf w = true -> recv_answer (Some c) w = Callback v -> checkObject c v = true.
+Proof. exact C02_result_partial_main. Qed.
+Print Assumptions C02_result_partial.
+
 (* "a non-conforming message makes that one call fail with a Violation": FALSE for strictTaster constraints
    (known finding oracle/strict-taster-drops-connection): a wrong token type under str/bool/None is a BananaError *)
 Theorem C02_one_call_refuted :
